@@ -33,8 +33,7 @@ def build(repo=None):
         'PYTHONPATH': d,
         'PYTHONHASHSEED': '0',
         'PYTHONDONTWRITEBYTECODE': '1',
-        common.GUARD: '1',
-    }
+    }     # (the hook guard PYXTUML_VERIF stays off: only vt/hooktrace.py turns the source hooks on)
     # regenerate the parser tables once, so that parallel workers never race
     code = ('import xtuml, bridgepoint, sys\n'
             'assert xtuml.__file__.startswith(%r), xtuml.__file__\n'
